@@ -6,6 +6,7 @@
 # removed afterwards. Prints one "== <id> rc=<n>: <first lines>" per check.
 set -u
 PATCH="$(readlink -f "$1")"; shift
+SRC="$(cd "$(dirname "$0")/.." && pwd)"   # /verif, or a snapshot of it (vp run)
 W=$(mktemp -d /tmp/pr.XXXXXX)
 if [ -z "${PR_KEEP:-}" ]; then
     trap 'git -C /repo worktree remove --force "$W/repo" >/dev/null 2>&1; rm -rf "$W"; git -C /repo worktree prune' EXIT INT TERM
@@ -15,7 +16,7 @@ fi
 git -C /repo worktree add --detach "$W/repo" HEAD >/dev/null 2>&1 || { echo "cannot create worktree"; exit 2; }
 git -C "$W/repo" apply "$PATCH" || { echo "patch does not apply"; exit 2; }
 mkdir -p "$W/verif"
-rsync -a --exclude 'incremental' --exclude replays --exclude 'fuzz/target' --exclude 'fuzz/corpus*' --exclude .git --exclude seeded --exclude benign /verif/ "$W/verif/"
+rsync -a --exclude 'incremental' --exclude replays --exclude 'fuzz/target' --exclude 'fuzz/corpus*' --exclude .git --exclude seeded --exclude benign "$SRC/" "$W/verif/"
 for f in "$W/verif/harness/Cargo.toml" "$W/verif/harness-sim/Cargo.toml" "$W/verif/fuzz/Cargo.toml"; do
     sed -i "s#path = \"/repo/#path = \"$W/repo/#g" "$f"
 done
